@@ -604,3 +604,255 @@ Proof.
   intros local ca Hb. unfold view_amounts in Hb. cbn [cv_htlcs cv_to_self_msat cv_feerate build_view] in Hb.
   exact (proj2 (proj2 (build_commitment_partition _ _ _ _ _ _ _ _ _ Hb))).
 Qed.
+
+(** ** The balance ledger *)
+
+(** What [revoke_and_ack] adds to [value_to_self_msat]: the inbound HTLCs we claimed whose removal the
+    peer just made irrevocable, minus the outbound HTLCs the peer claimed whose removal is now
+    irrevocable. These are exactly the claimed HTLCs that leave the pending lists in that call. *)
+Definition raa_settled_in (c : chan) : Z :=
+  sum_z (map (fun h => p_amt (ih h)) (filter (fun h => match ist h with IS_LocalRemoved true => true | _ => false end) (c_in c))).
+Definition raa_settled_out (c : chan) : Z :=
+  sum_z (map (fun h => p_amt (oh h)) (filter (fun h => match ost h with OS_AwaitingRemovedRemoteRevoke true => true | _ => false end) (c_out c))).
+
+Local Transparent sign_and_send.
+Lemma self_promote_for_sign c : c_self_msat (promote_for_sign c) = c_self_msat c.
+Proof. unfold promote_for_sign. destruct (c_pending_fee _) as [[f s]|]; [destruct s|]; reflexivity. Qed.
+Lemma self_sign_and_send c : c_self_msat (fst (sign_and_send c)) = c_self_msat c.
+Proof. unfold sign_and_send, build_commitment_no_status_check. cbn [fst]. cbn [set_flags c_self_msat]. apply self_promote_for_sign. Qed.
+Local Opaque sign_and_send.
+
+Lemma self_sign_and_send' c c' ms : sign_and_send c = (c', ms) -> c_self_msat c' = c_self_msat c.
+Proof. intros E. pose proof (self_sign_and_send c) as H. rewrite E in H. exact H. Qed.
+
+Lemma self_send_htlc c amt tag c' b : send_htlc c amt tag = ROk (c', b) -> c_self_msat c' = c_self_msat c.
+Proof.
+  unfold send_htlc. destruct (amt =? 0); [discriminate|]. destruct (c_disconnected c); [discriminate|].
+  destruct (negb _); intros [= <- <-]; reflexivity.
+Qed.
+
+Lemma self_send_htlc_and_commit c amt tag c' ms : send_htlc_and_commit c amt tag = ROk (c', ms) -> c_self_msat c' = c_self_msat c.
+Proof.
+  unfold send_htlc_and_commit. destruct (send_htlc c amt tag) as [[c1 b]|e] eqn:E; [|discriminate].
+  pose proof (self_send_htlc _ _ _ _ _ E) as H1. destruct b.
+  - intros E'. assert (sign_and_send c1 = (c', ms)) as E'' by congruence. rewrite (self_sign_and_send' _ _ _ E''). exact H1.
+  - intros [= <- <-]. exact H1.
+Qed.
+
+Lemma self_set_in_state c id s : c_self_msat (set_in_state c id s) = c_self_msat c.
+Proof. reflexivity. Qed.
+
+Lemma self_get_update_fulfill_htlc c id : c_self_msat (fst (get_update_fulfill_htlc c id)) = c_self_msat c.
+Proof.
+  unfold get_update_fulfill_htlc. destruct (find_in c id) as [h|]; [|reflexivity].
+  destruct (ist h); cbn [fst]; try reflexivity;
+  destruct (negb (can_generate_new_commitment c)); try (destruct (hc_mentions _ _)); reflexivity.
+Qed.
+
+Lemma self_claim_htlc c id : c_self_msat (fst (claim_htlc c id)) = c_self_msat c.
+Proof.
+  unfold claim_htlc. pose proof (self_get_update_fulfill_htlc c id) as H.
+  destruct (get_update_fulfill_htlc c id) as [c1 [[|]|]]; cbn [fst] in *; try exact H.
+  rewrite self_sign_and_send. exact H.
+Qed.
+
+Lemma self_fail_htlc c id force c' b : fail_htlc c id force = ROk (c', b) -> c_self_msat c' = c_self_msat c.
+Proof.
+  unfold fail_htlc. destruct (find_in c id) as [h|]; [|discriminate]. destruct (ist h); try discriminate.
+  destruct (force || _); [destruct (hc_mentions _ _); [discriminate|]|]; intros [= <- <-]; reflexivity.
+Qed.
+
+Lemma self_queue_fail_htlc c id : c_self_msat (queue_fail_htlc c id) = c_self_msat c.
+Proof.
+  unfold queue_fail_htlc. destruct (fail_htlc c id true) as [[c' b]|e] eqn:E; [|reflexivity].
+  exact (self_fail_htlc _ _ _ _ _ E).
+Qed.
+
+Lemma self_update_add_htlc c h c' : update_add_htlc c h = ROk c' -> c_self_msat c' = c_self_msat c.
+Proof.
+  unfold update_add_htlc. destruct (c_disconnected c); [discriminate|]. destruct (p_amt h =? 0); [discriminate|].
+  destruct (negb _); [discriminate|]. intros [= <-]. reflexivity.
+Qed.
+
+Lemma self_update_remove_htlc c id b c' : update_remove_htlc c id b = ROk c' -> c_self_msat c' = c_self_msat c.
+Proof.
+  unfold update_remove_htlc. destruct (c_disconnected c); [discriminate|].
+  destruct (find _ _) as [h|]; [|discriminate]. destruct (ost h); try discriminate. intros [= <-]. reflexivity.
+Qed.
+
+Lemma self_send_update_fee c f force : c_self_msat (fst (send_update_fee c f force)) = c_self_msat c.
+Proof. unfold send_update_fee. destruct (force || _); reflexivity. Qed.
+
+Lemma self_update_fee c f c' : update_fee c f = ROk c' -> c_self_msat c' = c_self_msat c.
+Proof. unfold update_fee. destruct (c_funder c); [discriminate|]. destruct (c_disconnected c); [discriminate|]. intros [= <-]. reflexivity. Qed.
+
+Lemma self_free_hc_updates send_ok l : forall c n, c_self_msat (fst (free_hc_updates send_ok c l n)) = c_self_msat c.
+Proof.
+  induction l as [|u t IH]; intros c n; cbn [free_hc_updates]; [reflexivity|].
+  destruct u as [amt tag|id|id].
+  - destruct (send_ok amt); [|apply IH].
+    destruct (send_htlc c amt tag) as [[c' b]|e] eqn:E; [|apply IH].
+    destruct b; rewrite IH; [exact (self_send_htlc _ _ _ _ _ E) | reflexivity].
+  - pose proof (self_get_update_fulfill_htlc c id) as H1.
+    destruct (get_update_fulfill_htlc c id) as [c' r]. rewrite IH. exact H1.
+  - destruct (fail_htlc c id false) as [[c' b]|e] eqn:E; [|apply IH].
+    destruct b; rewrite IH; [exact (self_fail_htlc _ _ _ _ _ E) | reflexivity].
+Qed.
+
+Lemma self_free_holding_cell_htlcs send_ok fee_ok c : c_self_msat (fst (free_holding_cell_htlcs send_ok fee_ok c)) = c_self_msat c.
+Proof.
+  unfold free_holding_cell_htlcs.
+  assert (forall l hf, c_self_msat (fst (
+    let c0 := set_hc c [] hf in
+    let '(c1, n) := free_hc_updates send_ok c0 l 0 in
+    let '(c2, fee_sent) :=
+      match hf with
+      | Some f => let c1' := set_hc c1 (c_hc c1) None in if fee_ok then send_update_fee c1' f false else (c1', false)
+      | None => (c1, false)
+      end in
+    if (n =? 0) && negb fee_sent then (c2, []) else sign_and_send c2)) = c_self_msat c) as Hgen.
+  { intros l hf. cbv zeta.
+    pose proof (self_free_hc_updates send_ok l (set_hc c [] hf) 0) as H1.
+    destruct (free_hc_updates send_ok (set_hc c [] hf) l 0) as [c1 n]. cbn [fst] in H1.
+    assert (c_self_msat (fst (match hf with
+      | Some f => let c1' := set_hc c1 (c_hc c1) None in if fee_ok then send_update_fee c1' f false else (c1', false)
+      | None => (c1, false) end)) = c_self_msat c1) as H2.
+    { destruct hf as [f|]; [|reflexivity]. cbv zeta. destruct fee_ok; [rewrite self_send_update_fee|]; reflexivity. }
+    destruct (match hf with Some f => _ | None => _ end) as [c2 fs]. cbn [fst] in H2.
+    destruct ((n =? 0) && negb fs); cbn [fst]; [|rewrite self_sign_and_send]; rewrite H2; exact H1. }
+  destruct (c_hc c) as [|u t]; [destruct (c_hc_fee c) as [f|]; [apply (Hgen [] (Some f)) | reflexivity] | apply Hgen].
+Qed.
+
+Lemma self_maybe_free send_ok fee_ok c : c_self_msat (fst (maybe_free_holding_cell_htlcs send_ok fee_ok c)) = c_self_msat c.
+Proof. unfold maybe_free_holding_cell_htlcs. destruct (can_generate_new_commitment c); [apply self_free_holding_cell_htlcs|reflexivity]. Qed.
+
+Lemma self_commitment_signed c v c' ms : commitment_signed c v = ROk (c', ms) -> c_self_msat c' = c_self_msat c.
+Proof.
+  unfold commitment_signed. destruct (c_disconnected c); [discriminate|]. destruct (negb (mirror_eqb _ _ _)); [discriminate|].
+  assert (c_self_msat (fst (commitment_signed_update_monitor c)) = c_self_msat c) as H1.
+  { unfold commitment_signed_update_monitor. cbn [fst set_flags set_htlcs c_self_msat].
+    destruct (c_pending_fee _) as [[f s]|]; [destruct s|]; reflexivity. }
+  destruct (commitment_signed_update_monitor c) as [c1 need]. cbn [fst] in H1.
+  destruct (need && _).
+  - destruct (sign_and_send c1) as [c2 ms2] eqn:E2. intros [= <- <-]. rewrite (self_sign_and_send' _ _ _ E2). exact H1.
+  - intros [= <- <-]. exact H1.
+Qed.
+
+Lemma self_revoke_and_ack_update c :
+  c_self_msat (fst (revoke_and_ack_update c)) = c_self_msat c + raa_settled_in c - raa_settled_out c.
+Proof.
+  unfold revoke_and_ack_update, raa_settled_in, raa_settled_out.
+  destruct (c_pending_fee _) as [[f s]|]; [destruct s|]; cbn [fst set_fee set_self c_self_msat set_cns set_flags c_in c_out]; lia.
+Qed.
+
+Lemma self_revoke_and_ack send_ok fee_ok c c' ms :
+  revoke_and_ack send_ok fee_ok c = ROk (c', ms) ->
+  c_self_msat c' = c_self_msat c + raa_settled_in c - raa_settled_out c.
+Proof.
+  unfold revoke_and_ack. destruct (c_disconnected c); [discriminate|]. destruct (negb _); [discriminate|].
+  pose proof (self_revoke_and_ack_update c) as H1.
+  destruct (revoke_and_ack_update c) as [c1 req]. cbn [fst] in H1.
+  pose proof (self_maybe_free send_ok fee_ok c1) as H2.
+  destruct (maybe_free_holding_cell_htlcs send_ok fee_ok c1) as [c2 [|m ms2]]; cbn [fst] in H2.
+  - destruct req.
+    + intros E. assert (sign_and_send c2 = (c', ms)) as E' by congruence. rewrite (self_sign_and_send' _ _ _ E'). lia.
+    + intros [= <- <-]. lia.
+  - intros [= <- <-]. lia.
+Qed.
+
+Lemma self_peer_disconnected c : c_self_msat (peer_disconnected c) = c_self_msat c.
+Proof.
+  unfold peer_disconnected. destruct (c_disconnected c); [reflexivity|]. cbn [set_flags c_self_msat].
+  destruct (c_pending_fee _) as [[f s]|]; [destruct s|]; reflexivity.
+Qed.
+
+Lemma self_channel_reestablish c nl nr c' ms : channel_reestablish c nl nr = ROk (c', ms) -> c_self_msat c' = c_self_msat c.
+Proof.
+  unfold channel_reestablish. destruct (negb _); [discriminate|]. destruct (_ <? _); [discriminate|].
+  destruct (negb _); [discriminate|]. destruct (nl =? _); [intros [= <- <-]; reflexivity|].
+  destruct (nl =? _); [intros [= <- <-]; reflexivity|]. destruct (nl <? _); discriminate.
+Qed.
+
+(** The amount a step settles irrevocably at node [x]: non-zero only when the step delivers a
+    revoke_and_ack to [x]. *)
+Definition settled_by (s : sys) (l : label) (x : bool) : Z * Z :=
+  match l with
+  | L_Deliver y =>
+    if Bool.eqb y x then (0, 0)
+    else match (if y then s_q10 s else s_q01 s) with
+         | M_Raa :: _ => (raa_settled_in (node s x), raa_settled_out (node s x))
+         | _ => (0, 0)
+         end
+  | _ => (0, 0)
+  end.
+
+Fixpoint ledger (s : sys) (ls : list (oracle * label)) (x : bool) : Z * Z :=
+  match ls with
+  | [] => (0, 0)
+  | (o, l) :: t =>
+    match sys_step o s l with
+    | ROk s' => let '(a, b) := settled_by s l x in let '(a', b') := ledger s' t x in (a + a', b + b')
+    | RErr _ => (0, 0)
+    end
+  end.
+
+Lemma self_deliver_msg o c m c' ms :
+  deliver_msg o c m = ROk (c', ms) ->
+  c_self_msat c' = c_self_msat c + (match m with M_Raa => raa_settled_in c - raa_settled_out c | _ => 0 end).
+Proof.
+  destruct m as [h|id|id|f|v| |nl nr]; cbn [deliver_msg].
+  - destruct (update_add_htlc c h) eqn:E; [|discriminate]. intros [= <- <-]. rewrite (self_update_add_htlc _ _ _ E). lia.
+  - destruct (update_remove_htlc c id true) eqn:E; [|discriminate]. intros [= <- <-]. rewrite (self_update_remove_htlc _ _ _ _ E). lia.
+  - destruct (update_remove_htlc c id false) eqn:E; [|discriminate]. intros [= <- <-]. rewrite (self_update_remove_htlc _ _ _ _ E). lia.
+  - destruct (update_fee c f) eqn:E; [|discriminate]. intros [= <- <-]. rewrite (self_update_fee _ _ _ E). lia.
+  - intros E. rewrite (self_commitment_signed _ _ _ _ E). lia.
+  - intros E. rewrite (self_revoke_and_ack _ _ _ _ _ E). lia.
+  - intros E. rewrite (self_channel_reestablish _ _ _ _ _ E). lia.
+Qed.
+
+Lemma node_set_node s x c y : node (set_node s x c) y = if Bool.eqb x y then c else node s y.
+Proof. destruct x, y; reflexivity. Qed.
+Lemma node_emit s x ms y : node (emit s x ms) y = node s y.
+Proof. destruct x, y; reflexivity. Qed.
+
+Lemma self_sys_step o s l s' x :
+  sys_step o s l = ROk s' ->
+  c_self_msat (node s' x) = c_self_msat (node s x) + fst (settled_by s l x) - snd (settled_by s l x).
+Proof.
+  destruct l as [y amt tag|y id|y id|y f|y| | |y]; cbn [sys_step settled_by fst snd].
+  - destruct (send_htlc_and_commit (node s y) amt tag) as [[c ms]|e] eqn:E; [|discriminate].
+    intros [= <-]. rewrite node_emit, node_set_node.
+    destruct (Bool.eqb_spec y x) as [->|]; [rewrite (self_send_htlc_and_commit _ _ _ _ _ E)|]; lia.
+  - pose proof (self_claim_htlc (node s y) id) as Hc.
+    destruct (claim_htlc (node s y) id) as [c ms]. cbn [fst] in Hc. intros [= <-]. rewrite node_emit, node_set_node.
+    destruct (Bool.eqb_spec y x) as [->|]; lia.
+  - intros [= <-]. rewrite node_set_node. destruct (Bool.eqb_spec y x) as [->|]; [rewrite self_queue_fail_htlc|]; lia.
+  - intros [= <-]. rewrite node_set_node. unfold queue_update_fee.
+    destruct (Bool.eqb_spec y x) as [->|]; [rewrite self_send_update_fee|]; lia.
+  - destruct (if y then s_q10 s else s_q01 s) as [|m rest] eqn:Eq; [discriminate|].
+    match goal with |- match deliver_msg o (node ?s1 ?z) m with _ => _ end = _ -> _ =>
+      assert (forall w, node s1 w = node s w) as Hn by (intros w; destruct y, w; reflexivity);
+      destruct (deliver_msg o (node s1 z) m) as [[c ms]|e] eqn:E; [|discriminate]
+    end.
+    intros [= <-]. rewrite node_emit, node_set_node. rewrite Hn in E.
+    pose proof (self_deliver_msg _ _ _ _ _ E) as Hd.
+    destruct y, x; cbn [negb Bool.eqb fst snd] in *; try lia; destruct m; cbn [fst snd]; lia.
+  - intros [= <-]. destruct x; cbn [node s_n0 s_n1]; rewrite self_peer_disconnected; lia.
+  - destruct (s_connected s); [discriminate|]. intros [= <-]. destruct x; cbn [node s_n0 s_n1]; lia.
+  - pose proof (self_maybe_free (send_ok_of o) (fee_ok o) (node s y)) as Hc.
+    destruct (maybe_free_holding_cell_htlcs _ _ (node s y)) as [c ms]. cbn [fst] in Hc. intros [= <-].
+    rewrite node_emit, node_set_node. destruct (Bool.eqb_spec y x) as [->|]; lia.
+Qed.
+
+(** For every list of labels: each side's balance is its opening balance plus what was irrevocably
+    settled to it minus what was irrevocably settled away. No other step moves it. *)
+Lemma balance_ledger ls : forall s0 s x,
+  run s0 ls = ROk s ->
+  c_self_msat (node s x) = c_self_msat (node s0 x) + fst (ledger s0 ls x) - snd (ledger s0 ls x).
+Proof.
+  induction ls as [|[o l] t IH]; intros s0 s x; cbn [run ledger].
+  - intros [= <-]. cbn. lia.
+  - destruct (sys_step o s0 l) as [s1|e] eqn:E; [|discriminate]. intros Hr.
+    rewrite (IH _ _ x Hr), (self_sys_step _ _ _ _ x E).
+    destruct (settled_by s0 l x) as [a b]. destruct (ledger s1 t x) as [a' b']. cbn [fst snd]. lia.
+Qed.
